@@ -6,19 +6,23 @@ CFG = dict(
                "everything leaf-side (outside F14); PruneFrom keeps the lowest match and drops only its leaf side (outside F15); "
                "unconditionally: number of samples, values, labels unchanged and a sample with frames never becomes empty; "
                "RemoveUninteresting = Prune with ^(..)$-anchored expressions, identity without drop_frames, error leaves the profile "
-               "alone; simplifyFunc only cuts a suffix; refuted twins for F14, F15 with concrete witnesses.",
+               "alone; any history of these operations on ONE profile object leaves what the composition of the rules leaves, validity "
+               "preserved step by step (history_meets_spec); simplifyFunc only cuts a suffix; refuted twins for F14, F15 with concrete witnesses.",
     level_note="Regexp engine abstract (match table shipped per case); simplifyFunc's fixed bracket expression modelled exactly and "
                "compared on 400+ names per run; the call site in fetch.go (fetchProfiles applies RemoveUninteresting exactly once, whatever the "
                "mappings' HasFunctions flags) is covered by the `fetch` op on the real fetchProfiles; addLegacyFrameInfo is not modelled.",
     rule="inputs = (op, profile, expressions, match table over simplified names): simplifyFunc on a pool + random concatenations of "
          "'(', 'operator()', '(anonymous namespace)' pieces; Prune with drop/keep pairs, PruneFrom, RemoveUninteresting (incl. invalid "
          "expressions, keep without drop) on small stack profiles with inlined locations (1-3 lines), locations shared between "
-         "samples and repeated in a stack, unsymbolized locations, empty stacks, matches at root / leaf / middle; distinct = sha256 of "
+         "samples and repeated in a stack, unsymbolized locations, empty stacks, matches at root / leaf / middle; the real fetchProfiles on one in-memory source with mappings of mixed HasFunctions flags; "
+         "histories of 2-3 operations on the SAME object (prune, prunefrom, removeun, driver fetchProfiles then generateRawReport "
+         "-prune_from) judged against the composition of the frame rules (id-free frame-sample observable); distinct = sha256 of "
          "the input term; non-trivial = the operation changed samples or locations",
     spec_what="frames removed by Prune / PruneFrom / RemoveUninteresting differ from the C11 statement (frame rules of S_Prune.v)",
     trusted_base=["Go regexp engine (its answers are shipped as a match table in every case)",
                   "export shims profile/zz_verif_c11.go (exposes simplifyFunc), internal/driver/zz_verif_c11.go (runs fetchProfiles on one in-memory source, no-op symbolizer, ObjTool that finds nothing)"],
     assumptions=["profiles are valid in the sense of wf_profile (a fragment of Profile.CheckValid)",
                  "an unsymbolized location counts as one frame that matches nothing",
+                 "the Go operations keep no state between calls (a history is modelled as the composition of the models; the history op checks it)",
                  "legacy_profile.addLegacyFrameInfo is not modelled; the fetch.go call site is checked with a single source (no merge)"],
 )
